@@ -37,7 +37,7 @@ fn props() -> Vec<Prop> {
         Prop { id: "C13", run: c13::run, replay: c13::replay, meta: c13::meta, workers: (4, 16), also_release: false, also_bg: false, scale: (10, 20), fuzz: None },
         Prop { id: "C14", run: c14::run, replay: c14::replay, meta: c14::meta, workers: (8, 16), also_release: false, also_bg: false, scale: (5, 2), fuzz: Some(("config_doc", 3000000)) },
         Prop { id: "C15", run: c15::run, replay: c15::replay, meta: c15::meta, workers: (8, 16), also_release: false, also_bg: false, scale: (5, 3), fuzz: None },
-        Prop { id: "C16", run: c16::run, replay: c16::replay, meta: c16::meta, workers: (8, 16), also_release: false, also_bg: false, scale: (3, 1), fuzz: None },
+        Prop { id: "C16", run: c16::run, replay: c16::replay, meta: c16::meta, workers: (9, 17), also_release: false, also_bg: false, scale: (3, 1), fuzz: None },
         Prop { id: "C17", run: c17::run, replay: c17::replay, meta: c17::meta, workers: (4, 16), also_release: false, also_bg: false, scale: (5, 10), fuzz: None },
         Prop { id: "C18", run: c18::run, replay: c18::replay, meta: c18::meta, workers: (8, 16), also_release: false, also_bg: false, scale: (1, 1), fuzz: None },
         Prop { id: "C19", run: c19::run, replay: c19::replay, meta: c19::meta, workers: (4, 16), also_release: false, also_bg: false, scale: (5, 5), fuzz: Some(("env_expand", 6000000)) },
@@ -116,13 +116,16 @@ fn main() {
             let st = run.stats.replace(Stats::default());
             std::fs::write(&args[6], serde_json::to_string(&st).unwrap()).expect("write worker stats");
             let _ = std::fs::remove_dir_all(&run.tmp);
+            fsx::cleanup_other_fs();
             std::process::exit(if st.violations > 0 { 1 } else { 0 });
         }
         "replay" => {
             if args.len() < 3 {
                 usage();
             }
-            std::process::exit(replay_file(&args[2], true));
+            let code = replay_file(&args[2], true);
+            fsx::cleanup_other_fs();
+            std::process::exit(code);
         }
         "child" => {
             if args.len() < 3 {
@@ -236,6 +239,7 @@ fn parent(id: &str, tier: Tier) -> i32 {
         (p.run)(&run);
         total = run.stats.replace(Stats::default());
         let _ = std::fs::remove_dir_all(&run.tmp);
+        fsx::cleanup_other_fs();
     } else {
         let tmp = Run::new(id, tier, seed, (0, 1), &profile_name()).tmp;
         let mut bins = vec![exe.clone()];
